@@ -503,7 +503,12 @@ func genC05(r *Rng, e *Emitter, n int) {
 		l := wktLayouts[r.Intn(4)]
 		t := r.wktTree(2, l)
 		if r.chance(1, 40) { // deep nesting
-			for d := 3 + r.Intn(20); d > 0; d-- {
+			d := 3 + r.Intn(20)
+			if r.chance(1, 2) { // far deeper than anything hand-written
+				d = []int{64, 99, 100, 101, 102, 128, 200, 201, 256, 300, 513}[r.Intn(11)] + r.Intn(3)
+				e.tally("deep-chain")
+			}
+			for ; d > 0; d-- {
 				t = &gtree{kind: "gc", layout: geom.NoLayout, members: []*gtree{t}}
 			}
 		}
